@@ -159,6 +159,15 @@ fn gen_rooms(r: &mut Rng, nc: usize, courses: &[ICourse]) -> Vec<usize> {
         2 => nc + r.range(1, 2),
         _ => r.range(0, nc + 1),
     };
+    // every fourth list: at least as many rooms as courses, all of (nearly) the size one of the courses has when it is completely
+    // filled (factor and offset applied to attendees AND instructors) -- the corner where "the rooms can never bind" is almost true
+    if r.chance(1, 4) && nc > 0 {
+        let c = r.pick(courses);
+        let full = (f32::from_bits(c.obits) + f32::from_bits(c.fbits) * (c.max + c.instr.len()) as f32).ceil() as usize;
+        let n = nc + r.range(0, 2);
+        let d = r.range(0, 2);
+        return (0..n).map(|i| if i == 0 && r.chance(1, 3) { full } else { full.saturating_sub(d) }).collect();
+    }
     let top = courses.iter().map(|c| c.max + c.instr.len()).max().unwrap_or(1) + 2;
     let tight = r.chance(1, 2);
     (0..len)
